@@ -138,8 +138,54 @@ let mk_sys toks =
         (match !err with None -> None | Some m -> once m)) }
   | _ -> failwith "unknown case header"
 
+(* ---- port-level stage (G3): `driver port` reads histories `C port <svc> <maxl> <idmax>` / `O <op> = <obs>` of the REAL
+   iceoryx2::port::{notifier,listener} and compares every return value and every delivery with the reference semantics
+   model/EventPort.v (pstep) ---- *)
+let port_main () =
+  let cases = ref 0 and ops = ref 0 and mm = ref 0 and distinct = Hashtbl.create 1024 in
+  let opcount = Hashtbl.create 16 in
+  let st = ref (port_init N0 N0) in
+  let hist = Buffer.create 256 in
+  let (pcn, pdn) = port_ops in
+  let obs_str = function
+    | POk -> "ok" | PErr -> "err" | PSkip -> "skip" | POob -> "oob"
+    | PCount n -> "c" ^ u64_string_of_n n
+    | PIds [] -> "-"
+    | PIds l -> String.concat "," (List.map (fun (i, c) -> u64_string_of_n i ^ ":" ^ u64_string_of_n c) l) in
+  let num s from = n_of_int (int_of_string (String.sub s from (String.length s - from))) in
+  let parse op =
+    if op = "cn" then pcn else if op = "dn" then pdn else if op = "nd" then port_op (n_of_int 2) (n_of_int 3)
+    else if String.length op > 2 && String.sub op 0 2 = "cl" then port_op (n_of_int 0) (num op 2)
+    else if String.length op > 2 && String.sub op 0 2 = "dl" then port_op (n_of_int 1) (num op 2)
+    else if op.[0] = 'n' then port_op (n_of_int 2) (num op 1)
+    else if op.[0] = 'w' then port_op (n_of_int 3) (num op 1)
+    else failwith ("port op " ^ op) in
+  let k = ref 0 in
+  (try while true do
+    let line = input_line stdin in
+    match split_on ' ' line with
+    | "C" :: "port" :: _ :: maxl :: idmax :: _ ->
+      incr cases; k := 0; Buffer.clear hist; st := port_init (n_of_int (int_of_string maxl)) (n_of_int (int_of_string idmax))
+    | [ "O"; op; "="; obs ] ->
+      incr ops; incr k; Buffer.add_string hist (op ^ "=" ^ obs ^ " ");
+      Hashtbl.replace opcount (String.sub op 0 (if op = "cn" || op = "dn" || op = "nd" then 2 else if op.[0] = 'n' || op.[0] = 'w' then 1 else 2))
+        (1 + try Hashtbl.find opcount (String.sub op 0 (if op = "cn" || op = "dn" || op = "nd" then 2 else if op.[0] = 'n' || op.[0] = 'w' then 1 else 2)) with Not_found -> 0);
+      let (st', o) = port_step !st (parse op) in
+      st := st';
+      let m = obs_str o in
+      if m <> obs then begin
+        incr mm;
+        Printf.printf "MISMATCH case=%d op=%d kind=spec line=[%s] model=%s impl=%s history-so-far=[%s]\n" !cases !k line m obs (Buffer.contents hist) end;
+      Hashtbl.replace distinct (Buffer.contents hist) ()
+    | [] -> ()
+    | _ -> failwith ("bad line: " ^ line)
+  done with End_of_file -> ());
+  Printf.printf "SUMMARY cases=%d ops=%d mismatches_model=0 mismatches_spec=%d distinct_nontrivial=%d\n" !cases !ops !mm (Hashtbl.length distinct);
+  Hashtbl.iter (fun o c -> Printf.printf "OPCOUNT port_%s %d\n" o c) opcount
+
 let () =
+  if Array.length Sys.argv > 1 && Sys.argv.(1) = "port" then port_main () else begin
   run mk_sys (fun toks -> String.concat " " toks);
   Printf.printf "EXTRA notified_empty_trigger_executions %d\nEXTRA blocked_forever_benign %d\n" !known_class !blocked_benign;
   Hashtbl.iter (fun sg r -> Printf.printf "EXTRA spec_signature_repeats %d\n" (!r - 1)) seen_sig;
-  Hashtbl.iter (fun k r -> Printf.printf "EXTRA site_%d %d\n" k !r) site_count
+  Hashtbl.iter (fun k r -> Printf.printf "EXTRA site_%d %d\n" k !r) site_count end
